@@ -51,3 +51,14 @@ func VerifPendingLen(c *Client) int {
 	defer c.mutex.Unlock()
 	return len(c.pending)
 }
+
+// VerifPendingSeqs returns the sequence numbers currently registered as pending on a client.
+func VerifPendingSeqs(c *Client) []uint64 {
+	c.mutex.Lock()
+	defer c.mutex.Unlock()
+	out := make([]uint64, 0, len(c.pending))
+	for k := range c.pending {
+		out = append(out, k)
+	}
+	return out
+}
